@@ -101,3 +101,41 @@ Section Visit.
      if (ret =? RET_CONTINUE) || (ret =? RET_SKIP) || (ret =? RET_POP) || (ret =? RET_STOP)
      then 0 else RET_ERROR).
 End Visit.
+
+(* ---- several traversals ---------------------------------------------------------------
+   json_c_visit is a function of its arguments only: it keeps nothing between calls and
+   nothing outside its own activation.  So a callback may itself start another traversal
+   (of the same or another tree, with another user function and argument) before it returns,
+   and traversals may follow one another: each one behaves as if it were alone.  A program
+   [Prog v codes nested] is the traversal of [v] whose callback answers its n-th call with
+   the n-th code (CONTINUE when the list is exhausted) and, during its k-th call and before
+   returning from it, runs the programs [q] with [(k, q)] in [nested].  [run_prog] lists the
+   outcome of every traversal of the program in the order of the program text; [None] = the
+   traversal was never started because its outer traversal made fewer than [k] calls. *)
+Definition sched_fun (codes : list Z) : list event -> Z :=
+  fun hist => nth (length hist - 1) codes 0.
+
+Inductive prog := Prog (v : jv) (codes : list Z) (nested : list (Z * prog)).
+
+Fixpoint not_run (p : prog) : list (option (list event * Z)) :=
+  match p with
+  | Prog _ _ nested =>
+      None :: (fix go (l : list (Z * prog)) :=
+                 match l with [] => [] | kq :: t => not_run (snd kq) ++ go t end) nested
+  end.
+
+Fixpoint run_prog (p : prog) : list (option (list event * Z)) :=
+  match p with
+  | Prog v codes nested =>
+      let out := json_c_visit (sched_fun codes) v in
+      Some out :: (fix go (l : list (Z * prog)) :=
+                     match l with
+                     | [] => []
+                     | kq :: t =>
+                         (if (1 <=? fst kq) && (fst kq <=? zlen (fst out)) then run_prog (snd kq)
+                          else not_run (snd kq)) ++ go t
+                     end) nested
+  end.
+
+(* traversals one after the other *)
+Definition run_progs (ps : list prog) : list (option (list event * Z)) := flat_map run_prog ps.
